@@ -291,6 +291,58 @@ func lightHistory(rng *rand.Rand) racHistory {
 	return h
 }
 
+// mixedRowHistory: n leaves; a block that deletes one leaf of several sibling pairs (the survivors move up a row);
+// then a block whose targets lie on different rows: complete sibling pairs together with moved-up survivors.
+func mixedRowHistory(rng *rand.Rand) racHistory {
+	n := 8 + rng.Intn(25)
+	h := racHistory{{Adds: n}}
+	live := map[uint64]bool{}
+	for i := 0; i < n; i++ {
+		live[uint64(i)] = true
+	}
+	var b2 racBlock
+	movedUp := []uint64{}
+	for p := 0; p+1 < n; p += 2 {
+		if rng.Intn(3) == 0 {
+			d := uint64(p + rng.Intn(2))
+			b2.Dels = append(b2.Dels, d)
+			delete(live, d)
+			movedUp = append(movedUp, uint64(p)+1-(d-uint64(p)))
+		}
+	}
+	if len(b2.Dels) == 0 {
+		b2.Dels = []uint64{uint64(n - 2)}
+		delete(live, uint64(n-2))
+		movedUp = append(movedUp, uint64(n-1))
+	}
+	b2.Adds = rng.Intn(2)
+	if b2.Adds == 1 {
+		live[uint64(n)] = true
+	}
+	h = append(h, b2)
+	var b3 racBlock
+	for p := 0; p+1 < n; p += 2 {
+		if live[uint64(p)] && live[uint64(p+1)] && rng.Intn(3) == 0 {
+			b3.Dels = append(b3.Dels, uint64(p), uint64(p+1))
+			delete(live, uint64(p))
+			delete(live, uint64(p+1))
+		}
+	}
+	for _, m := range movedUp {
+		if live[m] && rng.Intn(2) == 0 {
+			b3.Dels = append(b3.Dels, m)
+			delete(live, m)
+		}
+	}
+	sort.Slice(b3.Dels, func(i, j int) bool { return b3.Dels[i] < b3.Dels[j] })
+	b3.Adds = rng.Intn(3)
+	if len(b3.Dels) == 0 && b3.Adds == 0 {
+		b3.Adds = 1
+	}
+	h = append(h, b3)
+	return h
+}
+
 // lightMasks: remember masks of different densities.
 func lightMasks(rng *rand.Rand) []uint64 {
 	return []uint64{rng.Uint64(), rng.Uint64() & rng.Uint64(), rng.Uint64() & rng.Uint64() & rng.Uint64(), rng.Uint64() | rng.Uint64()}
@@ -327,6 +379,8 @@ func TestRAC_C07(t *testing.T) {
 		h := lightHistory(rng)
 		if i%3 == 2 {
 			h = emptyRootHistory(rng) // whole trees emptied, then additions merging over one or several empty roots
+		} else if i%3 == 1 {
+			h = mixedRowHistory(rng) // a block with targets on different rows
 		}
 		for _, mask := range lightMasks(rng) {
 			n++
@@ -349,7 +403,7 @@ func TestRAC_C07(t *testing.T) {
 		})
 	}
 	racLeaf = specLeaf
-	res.Rule = fmt.Sprintf("(+%d seeded random histories of up to 47 leaves / 2..5 blocks (every third one empties whole trees and then adds over the empty roots) with 4 remember masks each; + every history with <= 5 leaves / <= 3 blocks and every mask under the 4 adversarial value assignments of TestRAC_ADV) ", nr) + fmt.Sprintf("every history with <= %d leaves / <= %d blocks and, for each, every subset of added leaves to remember (bit s of the mask = remember the leaf of insertion slot s), from the empty cached proof; after every block: held set, parallel positions, canonical proof hashes (specForest.CanonProof) and acceptance by Verify. distinct = (history, remember mask) pairs", maxLeaves, maxBlocks)
+	res.Rule = fmt.Sprintf("(+%d seeded random histories of up to 47 leaves / 2..5 blocks (one third empty whole trees and then add over the empty roots, one third have a block whose targets lie on different rows: sibling pairs together with leaves that moved up) with 4 remember masks each; + every history with <= 5 leaves / <= 3 blocks and every mask under the 4 adversarial value assignments of TestRAC_ADV) ", nr) + fmt.Sprintf("every history with <= %d leaves / <= %d blocks and, for each, every subset of added leaves to remember (bit s of the mask = remember the leaf of insertion slot s), from the empty cached proof; after every block: held set, parallel positions, canonical proof hashes (specForest.CanonProof) and acceptance by Verify. distinct = (history, remember mask) pairs", maxLeaves, maxBlocks)
 	res.Scope = fmt.Sprintf("client_runs=%d", n)
 	res.write(t)
 }
@@ -387,6 +441,8 @@ func TestRAC_C08(t *testing.T) {
 		h := lightHistory(rng)
 		if i%3 == 2 {
 			h = emptyRootHistory(rng)
+		} else if i%3 == 1 {
+			h = mixedRowHistory(rng)
 		}
 		for _, mask := range lightMasks(rng) {
 			for d := 1; d <= len(h) && d <= 2; d++ {
